@@ -53,7 +53,7 @@ impl Prop for C28 {
             window: range(r, 1, 4) as u32,
             slip: *pick(r, &[0usize, 0, 1, 1, 2, 5]),
             table_size: if chance(r, 3) { 65_537 } else { *pick(r, &[1usize, 1, 2, 7, 64]) },
-            tasks: range(r, 2, 8) as usize,
+            tasks: if chance(r, 10) { range(r, 9, 16) as usize } else { range(r, 2, 8) as usize },
             per_task: range(r, 1, 6) as usize,
             gaps_s: (0..nb).map(|i| if i == 0 { 0 } else { range(r, 0, 3) }).collect(),
             hash_key: r.next(),
@@ -117,7 +117,7 @@ impl Prop for C28 {
         out
     }
     fn rule() -> String {
-        "one execution = 2-8 simulated threads x 1-6 identical UDP queries per burst (one stream: same /24, same QNAME up to case, same category), 1-3 bursts separated by whole simulated seconds, under one seeded schedule (random / PCT 2-5); rate 1-5, window 1-4, slip {0,1,2,5}, table size {1,2,7,64,65537}. Non-trivial = at least one preemption; distinct = distinct (scenario, schedule) hash".into()
+        "one execution = 2-16 simulated threads x 1-6 identical UDP queries per burst (one stream: same /24, same QNAME up to case, same category), 1-3 bursts separated by whole simulated seconds, under one seeded schedule (random / PCT 2-5); rate 1-5, window 1-4, slip {0,1,2,5}, table size {1,2,7,64,65537}. Non-trivial = at least one preemption; distinct = distinct (scenario, schedule) hash".into()
     }
     fn assumptions() -> Vec<String> {
         vec![
